@@ -47,26 +47,22 @@ def replay_and_validate(run, behs, driver, driver_args, trace_module, trace_cfg,
             stats = json.loads(out.strip().splitlines()[-1])
         except Exception:
             stats = {}
-        res = run.tlc_validate(trace_module, trace_cfg, trace, name=name + "_val", consts=consts, dfs=dfs)
+        # One pass: with deviations listed as known the trace is validated against ACTUAL = IDEAL + those
+        # deviations. The specifications record in `dev` every deviation that changed an outcome, so
+        # "accepted with dev = {}" is exactly "accepted by IDEAL" (the specs are deterministic given the
+        # constants). Without known deviations this is plain IDEAL validation.
+        c2 = dict(consts or {})
+        c2.update(kf_consts or {})
+        res = run.tlc_validate(trace_module, trace_cfg, trace, name=name + "_val", consts=c2, dfs=dfs)
         total_events += res["len"]
         if res["hw"] == res["len"] + 1:
             validated += len(chunk)
+            for k in res.get("dev", []) or []:
+                run.known((kf_desc or {}).get(k, k))
             os.remove(trace)
             continue
-        # not explained by IDEAL: try ACTUAL with the known deviations
         div = res["div"]
         events = vp.read_ndjson(trace)
-        if kf_consts:
-            c2 = dict(consts or {})
-            c2.update(kf_consts)
-            res2 = run.tlc_validate(trace_module, trace_cfg, trace, name=name + "_valkf", consts=c2, dfs=dfs)
-            if res2["hw"] == res2["len"] + 1:
-                validated += len(chunk)
-                for k in res2.get("dev", []) or []:
-                    run.known((kf_desc or {}).get(k, k))
-                os.remove(trace)
-                continue
-            div = res2["div"]
         at = div.get("at", 0)
         ev = events[at - 1] if 0 < at <= len(events) else {}
         tr = ev.get("tr")
